@@ -303,3 +303,32 @@ PROPS["C11"] = {
     "note": "ANSI-stripped = plain = tag-stripped for all messages and exact prefixes of indented lines go through a third-party "
             "formatter and are not decided.",
 }
+
+PROPS["C15"] = {
+    "claimed": True,
+    "technique": "static analysis: interprocedural guard dominance of control-code writes by the ANSI test, newline summary for the plain arm, order-polarity product of the section registration / scan / reversal chain",
+    "text": (
+        "Decides: (R1) every write of a literal containing ESC/CR in SectionOutput, and every call of the helper that emits such "
+        "literals, lies on paths that pass the true edge of the ANSI test (supports_ansi / force_ansi), so a plain output gets no control "
+        "codes; (R2) write_line / overwrite of a section append exactly one newline on the plain and on the ANSI arm (same engine as "
+        "C11-R1); (R3) the sections erased below this one are re-printed in creation order: the registration polarity (insert at front), "
+        "the scan (forward until self, on the same shared list) and the final reversal multiply to 'oldest first' over exactly the "
+        "sections created later."
+    ),
+    "note": "The screen model for every history and row accounting with wrapping (ceil(len/width)) are arithmetic over runtime text and "
+            "not decided.",
+}
+
+PROPS["C16"] = {
+    "claimed": True,
+    "technique": "static analysis: guard dominance of control-code writes by the overwrite flag and of the flag's clearing by the ANSI test, who-may-touch lint on raw streams in clikit.ui, ordering of the at-maximum draw vs the throttle, must-call in finish()",
+    "text": (
+        "Decides: (R1) carriage-return / cursor-up literals are written only under the overwrite flag, the flag is cleared in __init__ "
+        "when the output lacks ANSI support and never switched back on; (R2) no UI component reaches a raw stream (one enumerated "
+        "exception: the hidden-question getpass), and display() returns before drawing when the output is quiet - with C10 a quiet "
+        "output receives nothing; (R3) in set_progress the 'step == max' arm always reaches display() and the time throttle is "
+        "consulted only on its false edge; (R4) finish() passes set_progress(max) on every path except 'already at max and not "
+        "overwriting'."
+    ),
+    "note": "Bar segment width, percentage, redraw spacing under a clock and residue of longer frames are arithmetic/timing and not decided.",
+}
